@@ -65,7 +65,9 @@ def gen_workload(tape, *, max_funcs=5, max_size=3, allow_gen=True, allow_tuple=T
         name = ("_s" if tape.coin(0.08, "underscore-name") else "s") + str(counters["s"])  # `_shift` is a valid parameter name
         counters["s"] += 1
         inputs[name] = {"axes": [], "kind": "scalar", "base": 0,
-                        "value": tape.pick(["str", "str", "str", "zero", "empty", "none", "false", "tuple", "float", "nan", "unicode", "inf", "floatlist"], "scalar-value")}
+                        "value": tape.pick(["str", "str", "str", "zero", "empty", "none", "false", "tuple", "float", "nan", "unicode", "inf", "floatlist", "masked-view"], "scalar-value")}
+        if tape.coin(0.03, "long-argument"):
+            inputs[name]["value"] = "longlist"  # a table of a few thousand numbers passed along as one argument
         scalars.append(name)
         return name
 
@@ -118,6 +120,9 @@ def gen_workload(tape, *, max_funcs=5, max_size=3, allow_gen=True, allow_tuple=T
             fd["profile"] = True  # every call runs under a ResourceProfiler (a real sampling thread)
         if tape.coin(0.1, "closure"):
             fd["closure"] = True  # the user function is a closure (only cloudpickle can serialise it)
+        if tape.coin(0.06, "resources-variable"):
+            fd["resources_var"] = True  # the function receives its Resources through an extra argument `res`
+            fd["params"].append("res")
         if n_out == 1 and kind != "gen" and tape.coin(0.1, "sequence-valued"):
             fd["seq_out"] = True  # each element / the single result is a 2-tuple
         elif n_out == 1 and kind != "gen" and tape.coin(0.1, "result-like"):
@@ -330,7 +335,9 @@ def build_inputs(w):
         if d["kind"] == "scalar":
             out[name] = {"zero": 0, "empty": "", "none": None, "false": False, "tuple": (), "float": 1.5,
                          "nan": float("nan"), "unicode": f"{name}-välue-θ", "inf": float("inf"),
-                         "floatlist": [0.5, float("-inf"), 1e300]}.get(d.get("value", "str"), f"{name}-val")
+                         "floatlist": [0.5, float("-inf"), 1e300], "longlist": list(range(2600)),
+                         # a transposed (non-contiguous) masked array: an ndarray subclass and a strided view at once
+                         "masked-view": np.ma.masked_invalid(np.array([[1.0, float("nan"), 3.0], [4.0, 5.0, float("nan")]])).T}.get(d.get("value", "str"), f"{name}-val")
         elif d["kind"] == "default":
             if d.get("provided"):
                 out[name] = f"{name}-given"
@@ -383,6 +390,9 @@ def build_pipeline(w, *, cached=(), tags=None, **pipeline_kwargs):
             kw["debug"] = True
         if fd.get("profile"):
             kw["profile"] = True
+        if fd.get("resources_var"):
+            kw["resources"] = {"cpus": 1 + len(fd["name"])}
+            kw["resources_variable"] = "res"
         pfs.append(PipeFunc(fn, out, mapspec=fd.get("mapspec"), defaults={**plain_defaults(fd), **array_defaults(w, fd)} or None,
                             bound=dict(fd.get("bound") or {}) or None, cache=fd["name"] in cached,
                             resources_scope=fd.get("resources_scope", "map"), **kw))
@@ -423,6 +433,7 @@ def describe(w):
              **({"debug": True} if fd.get("debug") else {}),
              **({"profile": True} if fd.get("profile") else {}),
              **({"closure": True} if fd.get("closure") else {}),
+             **({"resources_var": True} if fd.get("resources_var") else {}),
              **({"public_name": fd["public_name"]} if fd.get("public_name") else {}),
              **({"result_like": True} if fd.get("result_like") else {}),
              **({"data_like": fd["data_like"]} if fd.get("data_like") else {}),
@@ -475,6 +486,9 @@ def gen_dag(tape, *, min_funcs=2, max_funcs=5, allow_tuple=True, allow_defaults=
             inputs[d] = {"axes": [], "kind": "default", "base": 0, "provided": bool(tape.coin(0.4, "default-provided"))}
         if tape.coin(0.06, "profile-flag"):
             fd["profile"] = True
+        if tape.coin(0.08, "resources-variable"):
+            fd["resources_var"] = True
+            fd["params"].append("res")
         funcs.append(fd)
         values.extend(fd["outputs"])
     _none_only_for_leaves(funcs)
